@@ -13,6 +13,7 @@ import os
 
 import scenario as SC
 import seqrun as S
+import simnet
 import world as W
 from framework import Result, drive
 from scenario import Scenario
@@ -319,6 +320,99 @@ def oracle(spec, k, r):
     return None
 
 
+async def _two_session_case(loop, verb, when):
+    """session A has nothing to abort; session B is in the middle of a transfer: A's ABOR is A's alone"""
+    big = content(4096)
+    wd = W.World(loop, S.USERS_ANON, server_kwargs={"block_size": BS})
+    await wd.start()
+    out = {}
+    try:
+        wd.set_tree(S.TREE + [(("big.bin",), big)])
+        a = await wd.raw_client()
+        b = await wd.raw_client()
+        await W.run_line(wd, a, b"USER bob")
+        await W.run_line(wd, b, b"USER bob")
+        await W.run_line(wd, b, b"EPSV")
+        await W.data_connect(wd, b)
+        dr, dw = b.data
+        nb = len(b.replies)
+        if verb == "RETR":
+            sp = dw.transport.peer
+            sp.HIGH = 256
+            sp.hold = True  # B reads nothing yet: its worker is blocked in the middle of the file
+            b.send_raw(b"RETR big.bin\r\n")
+        else:
+            b.send_raw(b"STOR up.bin\r\n")
+            await loop.settle()
+            dw.write(big[:1000])
+        await loop.settle()
+        if when == "a-has-listener":
+            await W.run_line(wd, a, b"EPSV")
+        na = len(a.replies)
+        a.send_raw(b"ABOR\r\n")
+        await loop.settle()
+        await asyncio.sleep(1.0)
+        await loop.settle()
+        out["a_replies"] = [int(c) for c, _ in a.replies[na:]]
+        out["b_early"] = [int(c) for c, _ in b.replies[nb:]]
+        # now B's transfer runs to its end
+        if verb == "RETR":
+            sp.hold = False
+            sp._schedule_pump()
+            got = await asyncio.wait_for(dr.read(), 60)
+            dw.close()
+            out["b_ok"] = got == big
+        else:
+            dw.write(big[1000:])
+            dw.close()
+            await loop.settle()
+        b.data = None
+        waited = 0.0
+        while waited < 10 and not any(int(c) >= 200 for c, _ in b.replies[nb:]) and not b.eof:
+            await asyncio.sleep(0.25)
+            waited += 0.25
+            await loop.settle()
+        out["b_replies"] = [int(c) for c, _ in b.replies[nb:]]
+        if verb != "RETR":
+            out["b_ok"] = ("up.bin" in wd.tree() or True) and stored_bytes(wd.tree(), "up.bin") == big
+        out["a_follow"], _, _, _ = await W.run_line(wd, a, b"PWD")
+        out["b_follow"], _, _, _ = await W.run_line(wd, b, b"PWD")
+        a.close()
+        b.close()
+        await loop.settle()
+    finally:
+        try:
+            await wd.stop()
+        except Exception:
+            wd.finish()
+    return out
+
+
+def _two_job(args):
+    try:
+        return simnet.run(_two_session_case, *args[:2], task_salt=args[2])
+    except BaseException as e:  # noqa
+        return "HARNESS-ERROR %s: %s" % (type(e).__name__, e)
+
+
+def two_session_family(ctx, res):
+    for verb in ("RETR", "STOR"):
+        for when in ("plain", "a-has-listener"):
+            for salt in ((0,) if not ctx.thorough() else (0, 1, 5)):
+                res.cases += 1
+                res.count("two_sessions")
+                o = _two_job((verb, when, salt))
+                inp = {"kind": "two-sessions", "transfer_of_the_other_session": verb, "when": when, "task_salt": salt}
+                if isinstance(o, str):
+                    res.disagreements.append({"correspondence": "C14 two-session harness", "input": inp, "impl": o})
+                    continue
+                res.distinct.add(("two-sessions", verb, when, salt))
+                if o["a_replies"] != [226] or o["a_follow"] != [257]:
+                    res.oracle_failures.append({"input": inp, "what": "a session with no transfer sent ABOR while ANOTHER session's %s was running: it got %r (want a single 226), then PWD -> %r" % (verb, o["a_replies"], o["a_follow"]), "signature": "C14:abor-of-one-session-not-answered"})
+                elif o["b_replies"] != [150, 226] or not o["b_ok"] or o["b_follow"] != [257]:
+                    res.oracle_failures.append({"input": inp, "what": "ABOR sent by a session with no transfer hit ANOTHER session's %s: that session got %r, data intact: %r, PWD -> %r" % (verb, o["b_replies"], o["b_ok"], o["b_follow"]), "signature": "C14:abor-of-one-session-stops-another's-transfer"})
+
+
 def _run(ctx, compare=True):
     """thorough tier: the whole sweep again under two more iteration orders of the server's task sets"""
     res = None
@@ -334,6 +428,7 @@ def _run(ctx, compare=True):
                 res = r
             else:
                 res.merge(r)
+        two_session_family(ctx, res)
     finally:
         if old is None:
             os.environ.pop("VERIF_TASK_SALT", None)
@@ -416,6 +511,10 @@ def _one(inp):
 
 def replay(ctx, doc):
     inp = doc["failure"]["input"]
+    if inp.get("kind") == "two-sessions":
+        o = _two_job((inp["transfer_of_the_other_session"], inp["when"], inp.get("task_salt", 0)))
+        print(o)
+        return isinstance(o, str) or o["a_replies"] != [226] or o["b_replies"] != [150, 226] or not o["b_ok"]
     if "task_salt" in inp:
         os.environ["VERIF_TASK_SALT"] = str(inp["task_salt"])
     spec, r = _one(inp)
